@@ -257,6 +257,12 @@ def _layout_x(rng, cls, big):
     else:
         n = int(rng.integers(2, 61))
         x = np.cumsum(rng.uniform(0.01, 3.0, n))
+        if rng.random() < 0.3:
+            # one-decimal data (0.3, 1.4, 2.3, ...): differences and their sums round differently
+            x = np.round(np.cumsum(np.round(rng.uniform(0.1, 3.0, n), 1)), 1)
+            x = x[np.concatenate(([True], np.diff(x) > 0))]
+            if len(x) < 2:
+                x = np.array([0.3, 1.4])
     # offset (keeps gaps; exact for integer / dyadic offsets)
     r = rng.random()
     if cls == 'float':
@@ -284,6 +290,9 @@ def _thresholds(rng, x, cls, k=7):
         r = rng.random()
         if cls == 'long' and r < 0.45:
             t = float(rng.uniform(8.0, 40.0)) / L
+        elif r < 0.10 and n >= 4:
+            # exact tie between t and the distance of point i to point 0, which certainly starts a cluster
+            t = _ratio(x, int(rng.integers(2, min(n, 7))), 0)
         elif r < 0.18:
             t = 2.0 ** -int(rng.integers(1, 9))
         elif r < 0.55:
